@@ -462,7 +462,7 @@ func c11MemoKey(c *Check, a *Anchors) {
 		inspectBody(g.Body, func(nd ast.Node) bool {
 			switch x := nd.(type) {
 			case *ast.IndexExpr:
-				if fieldSel(ginfo, x.X, PkgTask, "Compiler", "dynamicCache") {
+				if fieldSel(ginfo, x.X, PkgTask, "Compiler", "dynamicCache") || memoOf(c.P).IsMap(ginfo, x.X) {
 					nIdx++
 					for _, p := range params {
 						if g == fb && mentionsVia(info, fb.Body, x.Index, p, 2) {
@@ -526,13 +526,21 @@ func atomicSection(c *Check, fb *FuncBody, pkg, typ, mapField, muField, rule, te
 	}
 	c.Fn(fb)
 	info := fb.Info()
+	// the memo of the compiler may live in a struct of its own with accessor methods (memo.go)
+	memo := &MemoModel{}
+	if typ == "Compiler" && mapField == "dynamicCache" {
+		memo = memoOf(c.P)
+	}
 	isMu := func(call *ast.CallExpr) bool {
 		sel, ok := ast.Unparen(call.Fun).(*ast.SelectorExpr)
-		return ok && fieldSel(info, sel.X, pkg, typ, muField)
+		return ok && (fieldSel(info, sel.X, pkg, typ, muField) || memo.IsMu(info, sel.X))
 	}
 	f := NewFlow(c.P, fb, func(call *ast.CallExpr, obj types.Object) string {
 		if fn, ok := obj.(*types.Func); ok && isMu(call) {
 			return "mu." + fn.Name()
+		}
+		if acc := memo.accessor(info, call); acc != "" {
+			return "memo." + acc
 		}
 		return ""
 	})
@@ -543,11 +551,15 @@ func atomicSection(c *Check, fb *FuncBody, pkg, typ, mapField, muField, rule, te
 		case "mu.Unlock":
 			delete(st, "held:mu")
 			delete(st, "section-of-lookup")
+		case "memo.lookup":
+			if st.Has("held:mu") {
+				st["section-of-lookup"] = true
+			}
 		}
 	}
 	isMapIdx := func(e ast.Expr) bool {
 		ix, ok := ast.Unparen(e).(*ast.IndexExpr)
-		return ok && fieldSel(info, ix.X, pkg, typ, mapField)
+		return ok && (fieldSel(info, ix.X, pkg, typ, mapField) || memo.IsMap(info, ix.X))
 	}
 	f.AssignEffect = func(s *ast.AssignStmt, st Facts) {
 		for _, r := range s.Rhs {
@@ -575,6 +587,18 @@ func atomicSection(c *Check, fb *FuncBody, pkg, typ, mapField, muField, rule, te
 				c.Decide(st.Has("held:mu") && st.Has("section-of-lookup"), rule, "store-in-lookup-section@"+fnDisplay(fb), as.Pos(), "stored in the same critical section as the lookup",
 					"the store into "+mapField+" is not in the same critical section as the lookup ("+muField+" is released in between or not held): two concurrent callers both miss and both compute; must-facts: "+st.String())
 			}
+		}
+	}
+	for call, l := range f.Labels {
+		st := f.At[call]
+		switch l {
+		case "memo.lookup":
+			nL++
+			c.Decide(st.Has("held:mu"), rule, "lookup-locked@"+fnDisplay(fb), call.Pos(), "lookup (through an accessor) under "+muField, "the table "+mapField+" is read without holding "+muField)
+		case "memo.store":
+			nS++
+			c.Decide(st.Has("held:mu") && st.Has("section-of-lookup"), rule, "store-in-lookup-section@"+fnDisplay(fb), call.Pos(), "stored (through an accessor) in the same critical section as the lookup",
+				"the store into "+mapField+" is not in the same critical section as the lookup ("+muField+" is released in between or not held): two concurrent callers both miss and both compute; must-facts: "+st.String())
 		}
 	}
 	if nL == 0 || nS == 0 {
